@@ -45,6 +45,23 @@ ValidUnion(ss, un) ==
        LET on == ss.frags[i].on IN on \in {Types[un].members[j] : j \in DOMAIN Types[un].members} => ValidObj(ss.frags[i].sub, on)
 ValidQuery(q) == ValidObj(q, Schema.query)
 
+\* does the tree contain, under an object parent, a fragment whose type condition names another type?
+\* thunder documents that it does not evaluate type conditions there (it applies such fragments to
+\* the parent object), so for these trees nothing is demanded of validation - but whatever validation
+\* accepts must still execute
+RECURSIVE ForeignObj(_, _), ForeignUnion(_, _)
+ForeignSub(s, tn) ==
+  s.hassub /\ s.name \in DOMAIN Types[tn].fields /\
+  LET b == BaseOf(Types[tn].fields[s.name]) IN
+  IF IsLeaf(b) THEN FALSE ELSE IF Kind(b) = "UNION" THEN ForeignUnion(s.sub, b) ELSE ForeignObj(s.sub, b)
+ForeignObj(ss, tn) ==
+  \/ \E i \in DOMAIN ss.frags : ss.frags[i].on # tn \/ ForeignObj(ss.frags[i].sub, tn)
+  \/ \E i \in DOMAIN ss.sels : ForeignSub(ss.sels[i], tn)
+ForeignUnion(ss, un) ==
+  \E i \in DOMAIN ss.frags :
+     LET on == ss.frags[i].on IN on \in {Types[un].members[j] : j \in DOMAIN Types[un].members} /\ ForeignObj(ss.frags[i].sub, on)
+HasForeignFragment(q) == ForeignObj(q, Schema.query)
+
 -----------------------------------------------------------------------------
 \* responses
 Ints == {"int", "int8", "int16", "int32", "int64", "uint", "uint8", "uint16", "uint32", "uint64"}
